@@ -1,6 +1,6 @@
 package byteslice
 
-//verif: mode=bv
+// verif: mode=bv
 func VH_C20_BsIndex() {
 	n := vNondetUint32("n")
 	vAssume(n >= 1)
